@@ -25,6 +25,11 @@ OUT = os.path.join(ROOT, "out" + ALT)
 EVID = os.path.join(ROOT, "evidence") if not ALT else os.path.join(OUT, "evidence")
 HARNESS = os.path.join(ROOT, "harness")
 MTV = os.path.join(HARNESS, "target" + ALT, "release", "mtv")
+# coverage measurement of the harness itself (tools/coverage.sh): a pre-built instrumented binary, own output directory
+if os.environ.get("VERIF_MTV"):
+    MTV = os.environ["VERIF_MTV"]
+    OUT = os.path.join(ROOT, "out-cov")
+    EVID = os.path.join(OUT, "evidence")
 VIOL = os.path.join(OUT, "violations")
 SEED = int(os.environ.get("VERIF_SEED", "20261002"))
 NCPU = os.cpu_count() or 4
@@ -59,6 +64,8 @@ def sh(cmd, timeout=None, env=None, cwd=None, check=False):
 
 def build_harness(features=None):
     """(re)build the harness against /repo's current working tree"""
+    if os.environ.get("VERIF_MTV"):
+        return
     cmd = ["cargo", "build", "--release", "--offline"]
     if ALT:
         cmd += ["--config", f'paths=["{REPO}"]', "--target-dir", os.path.join(HARNESS, "target" + ALT)]
@@ -657,7 +664,7 @@ CHAIN = {
                      "1-byte and 2-byte letter as response attribute key, event attribute key and event type, at execute / "
                      "instantiate / migrate / sudo / reply and inside a sub-message under every reply_on; compared: Ok/Err, the "
                      "emitted events (strings unchanged), state after"),
-    "C17": dict(cfgs=["routeacc", "routemix", "routefail", "stake"], focus="rlog,ok,panic,raw,post",
+    "C17": dict(cfgs=["routeacc", "routemix", "routefail", "stake"], focus="rlog,qroute,ok,panic,raw,post", always="qroute",
                 need=["module_called", "ok", "err"],
                 what="every message kind x origin (top-level, sub-message) x module configuration (all accepting, mixed, all "
                      "failing) x position (first / after a state change) x reply_on; compared: which module was called with which "
